@@ -200,7 +200,15 @@ pub fn apply_dialect(r: &mut Rng, e: &Encoded, b: &mut [u8]) -> Vec<&'static str
 }
 
 /// one input of the given class (index into CLASSES) or a random class
+/// Inputs are handed out as allocations of exactly their size (capacity == length): a read behind the
+/// input is then a read behind an allocation, which is what ASan / memcheck / Miri can report.
 pub fn gen_input(r: &mut Rng, class: Option<usize>, light: bool, sys: Option<u64>) -> Input {
+    let mut i = gen_input_any_capacity(r, class, light, sys);
+    i.bytes.shrink_to_fit();
+    i
+}
+
+fn gen_input_any_capacity(r: &mut Rng, class: Option<usize>, light: bool, sys: Option<u64>) -> Input {
     let c = class.unwrap_or_else(|| if !light && r.chance(1, 80) { 7 } else { match r.below(20) {
         0..=3 => 0,
         4..=6 => 1,
